@@ -112,13 +112,17 @@ fn macro_case_strategy(min_nodes: usize, max_nodes: usize, max_edges: usize) -> 
                     let edges: Vec<(u32, i64, bool)> = if n == 0 || !*has_list {
                         vec![]
                     } else {
-                        es.iter()
-                            .map(|&(t, ev, call, coin)| {
-                                // 15% self-loop, otherwise any listed key (repeats allowed)
-                                let tk = if coin < 15 { keys[i] } else { keys[pt::idx(t, n)] };
-                                (tk, ev, call)
-                            })
-                            .collect()
+                        let mut l: Vec<(u32, i64, bool)> = vec![];
+                        for &(t, ev, call, coin) in es.iter() {
+                            // 15% self-loop, 12% a verbatim repetition of the previous entry (same peer, same value),
+                            // otherwise any listed key (repeats allowed)
+                            let tk = if coin < 15 { keys[i] } else { keys[pt::idx(t, n)] };
+                            match l.last().cloned() {
+                                Some(prev) if coin >= 88 => l.push(prev),
+                                _ => l.push((tk, ev, call)),
+                            }
+                        }
+                        l
                     };
                     (keys[i], *val, *has_list, edges)
                 })
